@@ -17,6 +17,7 @@ output of every op: `<ok|err:class> <canonical dump of the whole store and all l
 import PvModel.MdStoreSpec
 import PvModel.MdAddr
 -- registry: mdstore PvModel.MdStore.driver
+-- registry: mdstorefix PvModel.MdStore.driverFixed
 
 namespace PvModel.MdStore
 open PvModel
@@ -137,8 +138,8 @@ def parseOp (ws : List String) : Option Op :=
   | _ => none
 
 /-- The property's conclusions evaluated on the implementation's result `r` and dumped state
-`post`, given the state `pre` before the op (the model's, which the previous line's comparison
-showed equal to the implementation's). -/
+`post`, given the state `pre` before the op (the implementation's previous dump; the model's
+state at the start of a history). -/
 def verdict (pre : State) (op : Op) (r : String) (post : State) (postDump : String) : String :=
   if r ≠ "ok" then
     -- a rejected message changes nothing
@@ -166,6 +167,12 @@ def verdict (pre : State) (op : Op) (r : String) (post : State) (postDump : Stri
             ∧ khas (·.id) post.sessions rec.session
         then some "session_survives_last_record" else none
       | none => none
+    | .deleteScopeSpec id =>
+      -- a scope specification named by a stored scope is not removed
+      if pre.scopes.any (fun sc => sc.spec = id) then some "scopespec_in_use_removed" else none
+    | .deleteContractSpec id =>
+      -- a contract specification listed by a stored scope specification is not removed
+      if pre.scopeSpecs.any (fun sp => id ∈ sp.cspecs) then some "contractspec_in_use_removed" else none
     | _ => none
   match opClause with
   | some c => s!"fail:{c}"
@@ -180,26 +187,54 @@ def verdict (pre : State) (op : Op) (r : String) (post : State) (postDump : Stri
       else "fail:session_without_scope"
     | _ => "fail:session_without_scope"
 
-def stepOp (s : State) (ws : List String) (impl : Option String) : State × String × String :=
+/-- driver state: the model state and the implementation's previous dump (if any) -/
+structure DState where
+  st : State := {}
+  lastImpl : Option String := none
+
+def stepOp (rm : State → UUID → State) (d : DState) (ws : List String) (impl : Option String) :
+    DState × String × String :=
+  let s := d.st
   match parseOp ws with
-  | none => (s, "bad-op", "-")
+  | none => (d, "bad-op", "-")
   | some op =>
-    let (s', res) := match applyOp hashName s op with
+    let (s', res) := match applyOpWith rm hashName s op with
       | .ok s' => (s', "ok")
       | .error e => (s, e.toString)
     let out := s!"{res} {dump s'}"
-    let v := match impl with
-      | none => "-"
-      | some i =>
-        let iw := words i
+    match impl with
+    | none => ({ st := s', lastImpl := none }, out, "-")
+    | some i =>
+      let iw := words i
+      let idump := " ".intercalate iw.tail
+      let r := iw.headD ""
+      let v :=
         match parseDump? iw.tail with
         | none => "fail:unparsable_dump"
-        | some post => verdict s op (iw.headD "") post (" ".intercalate iw.tail)
-    (s', out, v)
+        | some post =>
+          -- a rejected message changes nothing: compare with the implementation's own previous dump
+          if r ≠ "ok" then
+            (if idump ≠ d.lastImpl.getD (dump s) then "fail:rejected_op_changed_state" else "ok")
+          else
+            -- the state before the op, as the implementation reported it (equal to the model's
+            -- unless an earlier line already disagreed)
+            let pre := match d.lastImpl with
+              | some l => (parseDump? (words l)).getD s
+              | none => s
+            verdict pre op r post idump
+      ({ st := s', lastImpl := some idump }, out, v)
 
+/-- the code as it is -/
 def driver : Driver where
-  σ := State
+  σ := DState
   init := {}
-  step := fun s op impl => stepOp s (words op) impl
+  step := fun s op impl => stepOp removeScope s (words op) impl
+
+/-- the model with the PROPOSED FIX of `RemoveScope` (to be used by `checks/C14.json` once the
+fix is applied to the repository) -/
+def driverFixed : Driver where
+  σ := DState
+  init := {}
+  step := fun s op impl => stepOp removeScopeFixed s (words op) impl
 
 end PvModel.MdStore
